@@ -6,7 +6,8 @@ Streams
   world      every core configuration (provider TLS x provider server x consumer mode x consumer sink) - in the
              thorough tier the whole configuration space - with a random history of operations; real provider and
              consumer on the loop-back transport (harness/impl/c19_impl.py); compared with Tls.Model.run_case
-  ctxflags   certloader.mk_ssl_contexts(_from_folder) over its argument space; compared with Tls.Model.run_ctx
+  ctxflags   certloader.mk_ssl_contexts(_from_folder) on real key material over its argument space (CA named+present /
+             named+missing / not named, password, cyphers file) incl. a socketpair handshake; compared with Tls.Model.run_ctx
   clientcls  SoapClient / SoapClientAsync: ssl_context -> connection kind; compared with Tls.Model.mk_http_connection
 The oracle evaluates the property statement directly on the implementation traces.
 """
@@ -225,18 +226,27 @@ def oracle(ctx, case, tr):
 
 
 def oracle_ctx(case, res):
-    if case['loader'] == 'defaults' or case['ca'] != 'given':
+    """the caller NAMED a CA file (present or not): the call raised, or both contexts require and verify the peer
+    certificate and a TLS client without certificate is turned away"""
+    if case['loader'] == 'defaults' or case['ca'] == 'none':
         return None
+    named = 'a CA file that exists' if case['ca'] == 'given' else 'a NAMED CA file that does not exist'
     if res.get('status') != 'ok':
-        return f'contexts could not be built from a CA file: {res.get("status")}'
+        if case['ca'] == 'given' and case['passwd'] != 'wrong' and case['cyphers'] != 'missing':
+            return f'contexts could not be built from {named}: {res.get("status")}'
+        return None                                     # the call raised: nothing was built
     for side in ('client', 'server'):
         f = res[side]
         if f['verify'] != 'required':
-            return f'{side} context built from a CA file has verify_mode {f["verify"]}'
+            return f'{side} context built from {named} has verify_mode {f["verify"]}'
         if f['n_ca'] < 1:
-            return f'{side} context built from a CA file has no CA certificate loaded'
+            return f'{side} context built from {named} has no CA certificate loaded'
         if f['protocol'] != side:
             return f'{side} context has protocol {f["protocol"]}'
+    if res.get('anonymous_client') != 'rejected':
+        return f'server context built from {named} lets a TLS client without certificate in'
+    if case['ca'] == 'given' and res.get('own_client') != 'accepted':
+        return 'client and server context built from the same CA file cannot complete a handshake'
     if not res['distinct']:
         return 'client and server context are the same object'
     return None
@@ -445,9 +455,11 @@ def run(ctx):
         ctx.sample({'stream': 'foreign', 'case': fok[0][0], 'impl': dict(summary(fok[0][1]), statuses=fok[0][1].get('statuses'))})
 
     # ------------------------------------------------------------ stream ctxflags
-    ccases = [{'loader': 'defaults'}] + [{'loader': ld, 'ca': ca, 'cyphers': cy}
-                                         for ld in ('folder', 'direct') for ca in ('none', 'given', 'missing')
-                                         for cy in (False, True)]
+    ccases = [{'loader': 'defaults'}] + [
+        {'loader': ld, 'ca': ca, 'cyphers': cy, 'passwd': pw}
+        for ld in ('folder', 'direct') for ca in ('none', 'given', 'missing')
+        for cy in (('none', 'given', 'missing') if ld == 'folder' else ('none', 'given'))
+        for pw in ('right', 'wrong', 'absent')]
     r = ctx.impl('c19_impl', {'stream': 'ctxflags', 'cases': ccases})
     ctx_results = r.get('results', [])
     if r.get('_crash'):
@@ -457,22 +469,25 @@ def run(ctx):
         for c, res in zip(ccases, r['results']):
             why = oracle_ctx(c, res)
             if why:
-                ctx.fail(why, {'stream': 'ctxflags', 'clause': why.split(' has ')[-1][:40]},
+                ctx.fail(why + f' [{c}]', {'stream': 'ctxflags', 'clause': why.split(' has ')[-1][:40]},
                          {'stream': 'ctxflags', 'case': c, 'impl_trace': res, 'oracle': {'verdict': 'fail', 'clause': why}})
             if res.get('status') == 'ok':
                 vm = {'none': 0, 'optional': 1, 'required': 2}
                 exp = [0] + [x for side in ('client', 'server') for x in (
                     int(res[side]['protocol'] == 'client'), vm[res[side]['verify']], int(res[side]['check_hostname']),
                     int(res[side]['n_ca'] > 0))]
-                if not res['distinct']:
+                if c['loader'] != 'defaults':
+                    exp.append({'accepted': 1, 'rejected': 0}.get(res.get('anonymous_client'), 8))
+                if not res['distinct'] or res.get('own_client', 'accepted') != 'accepted':
                     exp[0] = 7
             else:
-                exp = [1 if res.get('status') == 'FileNotFoundError' else 8]
+                exp = [{'FileNotFoundError': 1, 'SSLError': 2}.get(res.get('status'), 8)]
             if c['loader'] == 'defaults':
                 cp.append(('ADefaults', zl(exp)))
             else:
                 ca = {'none': 'CaNone', 'given': 'CaGiven', 'missing': 'CaMissing'}[c['ca']]
-                cp.append((f'(ACtx {ca} {coqlit(c["cyphers"])})', zl(exp)))
+                cy = {'none': 'CyNone', 'given': 'CyGiven', 'missing': 'CyMissing'}[c['cyphers']]
+                cp.append((f'(ACtx {ca} {cy} {coqlit(c["passwd"] != "wrong")})', zl(exp)))
         streams.append(('ctxflags', [(x, f'({y}, [])') for x, y in cp]))
         ctx.count('ctxflags', len(cp), [b for _, b in cp], exhaustive=True,
                   tls_floor={'min_tls12': all(x.get('client', {}).get('min_tls12', True) for x in r['results']),
@@ -558,7 +573,11 @@ def run(ctx):
              'target: plain / trailing slash / absolute-form) varies over http / https / mixed-case schemes, own / alternative / '
              'foreign netlocs and matching / other paths; every URL in every response, notification and SubscriptionEnd is judged; the '
              'model gets the requests that were carried out (HTTP 200, no fault) with their peer fields (Tls.Model.run_foreign = prun). '
-             'ctxflags / clientcls: exhaustive over their argument spaces.',
+             'ctxflags: the real certloader functions on real key material in a temp folder, exhaustive over loader (folder / direct) x CA '
+             'file (not named / named and present / named but missing) x password (right / wrong / not needed) x cyphers (none / '
+             'file present / file missing); flags read back, plus a TLS handshake over a socketpair of a client without certificate '
+             '(and of the pair itself) against every returned server context; oracle: a named CA file gives an exception or two '
+             'verifying contexts that turn the anonymous client away. clientcls: exhaustive.',
         assumptions=['the TLS handshake is abstracted: a TLS client meeting a plaintext port gets ssl.SSLError on connect, a '
                      'plaintext client meeting a TLS port has its first request reset (matches the behaviour pinned by '
                      'tests/test_client_device.py TestEncryptionCombinations)',
